@@ -324,6 +324,7 @@ func TestGlobalSettingsRunner(t *testing.T) {
 			behs = append(behs, b)
 		}
 		gRunner.calls = 0
+		in.NoForeign = true // the process-wide runner would run in any other container started here as well
 		in.Run()
 		desc := fmt.Sprintf("global-settings %s runners=%d nohook=%v", s.Shape(), nr, s.NoHook)
 		if !in.Out.OK() {
